@@ -32,3 +32,43 @@ def out_ok(o, n) -> bool:
     if isinstance(n, ListType):
         return isinstance(o, ListType) and out_ok(o.type, n.type)
     return isinstance(o, NamedType) and o.name == n.name
+
+
+# ---- covariance (C13 interface implementation, C06 variable positions) ---------------------------
+
+from py_gql.schema.types import GraphQLAbstractType, ObjectType   # noqa: E402
+import z3 as _z3                                                     # noqa: E402
+
+
+def possible(schema, abstract_type, object_type):
+    """`object_type` is one of the possible types of `abstract_type` in `schema` (uninterpreted in proofs)"""
+    return object_type in schema.get_possible_types(abstract_type)
+
+
+def _possible_symbolic(tr, args, env):
+    from vf.pyvc.values import VBool
+    a, t = args[1], args[2]
+    f = _z3.Function("possible", a.e.sort(), t.e.sort(), _z3.BoolSort())
+    return VBool(f(a.e, t.e))
+
+
+possible.__symbolic__ = _possible_symbolic
+
+
+def valid_impl_type(schema, t, s) -> bool:
+    """IsValidImplementationFieldType(t, s) of the specification (section 3.6, Objects, type validation
+    rule 4) == AreTypesCompatible(variableType=t, locationType=s) (section 5.8.5) on input types:
+    `t` may be used where `s` is expected."""
+    if isinstance(t, NonNullType):
+        if isinstance(s, NonNullType):
+            return valid_impl_type(schema, t.type, s.type)
+        return valid_impl_type(schema, t.type, s)
+    if isinstance(s, NonNullType):
+        return False
+    if isinstance(t, ListType):
+        return isinstance(s, ListType) and valid_impl_type(schema, t.type, s.type)
+    if isinstance(s, ListType):
+        return False
+    if t == s:
+        return True
+    return isinstance(t, ObjectType) and isinstance(s, GraphQLAbstractType) and possible(schema, s, t)
